@@ -271,6 +271,7 @@ func run1(c *tcpm.Case, lifecycle bool) (f *vh.Failure, m *tcpm.Model, info map[
 				}
 			}
 		}
+		maxPkt := 0
 		for i := range c.Ops {
 			op := &c.Ops[i]
 			r.op = i
@@ -281,7 +282,11 @@ func run1(c *tcpm.Case, lifecycle bool) (f *vh.Failure, m *tcpm.Model, info map[
 				nf, t := mkTCP(c, op.Seg)
 				a.AssembleWithContext(nf, t, &ctx{gopacket.CaptureInfo{Timestamp: ts(op.Ts), CaptureLength: len(t.Payload), Length: len(t.Payload)}})
 				if lifecycle {
-					extra := pagesOf(op.Seg.Len)
+					// A queue can only shrink when a packet of its own connection (or a flush) comes: after a large
+					// packet it legitimately stays at limit + pages(that packet) while other connections' packets are
+					// processed, so the allowance is the largest packet seen so far, not the current one.
+					maxPkt = max(maxPkt, pagesOf(op.Seg.Len))
+					extra := maxPkt
 					queued, _, _ := reassembly.VerifConnPages(pool)
 					if c.MaxTotal > 0 {
 						// pages held for out-of-order data only: pages a stream asked to keep are not "buffered out-of-order data"
